@@ -28,6 +28,9 @@ EXTENDS Naturals, FiniteSets, TLC
 CONSTANTS Part, Deliverers, Closers, MaxReads,
           ChanClosedBy, WatcherQuitsOnDone, ListenerOrder, PingReaderCtx, KF_HalfCloseOnly,
           PingUnrMax, PingErrSend,
+          EarlyWatcherFollows, \* "cctx" = the code as it is: the early goroutine of DialContext follows the dial's own context cctx
+                               \* (cancelled by the caller OR by monitorUnreachable on a 'service unknown' notice); "ctx" =
+                               \* documented counter-example: it follows the caller's ctx and the error path leaves the socket to it
           DeliveryHoldsRLock   \* FALSE = the code as it is (the registry read lock is released right after the lookup);
                                \* TRUE = documented counter-example: it is held across the hand-over pc.recvChan <- md
 
@@ -42,14 +45,14 @@ VARIABLES
   \* ---- socket
   reg, ctx, chan, adv, dl, rd, nreads, cl, ncl, gUnsub, gFwd, gBroker, nodeSub,
   \* ---- stream (D = dialling side with ephemeral socket E, A = accepting side)
-  dial, ereg, ectx, okCh, cctx, g1, gmon, g2, dDone, qc, dOps, aOps, aDone, acctx, gaw, gam,
+  dial, ereg, ectx, okCh, cctx, uctx, g1, gmon, g2, dDone, qc, dOps, aOps, aDone, acctx, gaw, gam,
   \* ---- listener
   lpc, lsrv, tmutex, once, lc, tr,
   \* ---- ping
   preg, pctx, pingctx, parent, pmain, pDone, gRead, gErr, gS1, gS2, unr, replied
 
 socketVars   == <<reg, ctx, chan, adv, dl, rd, nreads, cl, ncl, gUnsub, gFwd, gBroker, nodeSub>>
-streamVars   == <<dial, ereg, ectx, okCh, cctx, g1, gmon, g2, dDone, qc, dOps, aOps, aDone, acctx, gaw, gam>>
+streamVars   == <<dial, ereg, ectx, okCh, cctx, uctx, g1, gmon, g2, dDone, qc, dOps, aOps, aDone, acctx, gaw, gam>>
 listenerVars == <<lpc, lsrv, tmutex, once, lc, tr>>
 pingVars     == <<preg, pctx, pingctx, parent, pmain, pDone, gRead, gErr, gS1, gS2, unr, replied>>
 vars == <<sctx, socketVars, streamVars, listenerVars, pingVars>>
@@ -60,7 +63,7 @@ Init ==
   /\ dl = [d \in Deliverers |-> "idle"] /\ rd = "idle" /\ nreads = 0
   /\ cl = [c \in Closers |-> "idle"] /\ ncl = 0
   /\ gUnsub = "alive" /\ gFwd = "alive" /\ gBroker = "alive" /\ nodeSub = TRUE
-  /\ dial = "none" /\ ereg = FALSE /\ ectx = "none" /\ okCh = FALSE /\ cctx = FALSE
+  /\ dial = "none" /\ ereg = FALSE /\ ectx = "none" /\ okCh = FALSE /\ cctx = FALSE /\ uctx = FALSE
   /\ g1 = "none" /\ gmon = "none" /\ g2 = "none" /\ dDone = FALSE /\ qc = "none"
   /\ dOps = {} /\ aOps = {} /\ aDone = FALSE /\ acctx = FALSE /\ gaw = "none" /\ gam = "none"
   /\ lpc = "open" /\ lsrv = TRUE /\ tmutex = "free" /\ once = "free" /\ lc = "idle" /\ tr = "reading"
@@ -167,75 +170,83 @@ EClose == /\ ereg' = FALSE /\ ectx' = "cancelled"       \* pc.Close() of the eph
 DialStart ==        \* ListenPacket(""), the early goroutine (okChan/cctx/s.context), monitorUnreachable
   /\ dial = "none" /\ sctx = "live"
   /\ dial' = "dialling" /\ ereg' = TRUE /\ ectx' = "live" /\ g1' = "alive" /\ gmon' = "alive"
-  /\ UNCHANGED <<okCh, cctx, g2, dDone, qc, dOps, aOps, aDone, acctx, gaw, gam>>
+  /\ UNCHANGED <<okCh, cctx, uctx, g2, dDone, qc, dOps, aOps, aDone, acctx, gaw, gam>>
 
-DialCtxCancel ==    \* the caller cancels, or monitorUnreachable calls ccancel (remote service unknown)
+DialCtxCancel ==    \* the caller cancels its context (cctx is derived from it)
+  /\ dial \in {"dialling", "ok"} /\ ~uctx
+  /\ cctx' = TRUE /\ uctx' = TRUE
+  /\ UNCHANGED <<dial, ereg, ectx, okCh, g1, gmon, g2, dDone, qc, dOps, aOps, aDone, acctx, gaw, gam>>
+DialNotice ==       \* monitorUnreachable calls ccancel: 'service unknown' for the dialled address (nobody listens there)
   /\ dial \in {"dialling", "ok"} /\ ~cctx
   /\ cctx' = TRUE
-  /\ UNCHANGED <<dial, ereg, ectx, okCh, g1, gmon, g2, dDone, qc, dOps, aOps, aDone, acctx, gaw, gam>>
+  /\ UNCHANGED <<dial, ereg, ectx, okCh, uctx, g1, gmon, g2, dDone, qc, dOps, aOps, aDone, acctx, gaw, gam>>
 
 G1_Ok ==            \* case <-okChan: return
   /\ g1 = "alive" /\ okCh /\ g1' = "done"
-  /\ UNCHANGED <<dial, ereg, ectx, okCh, cctx, gmon, g2, dDone, qc, dOps, aOps, aDone, acctx, gaw, gam>>
+  /\ UNCHANGED <<dial, ereg, ectx, okCh, cctx, uctx, gmon, g2, dDone, qc, dOps, aOps, aDone, acctx, gaw, gam>>
 G1_Cancel ==        \* case <-cctx.Done() / <-s.context.Done(): pcClose()
-  /\ g1 = "alive" /\ (cctx \/ sctx = "cancelled") /\ g1' = "done" /\ EClose
-  /\ UNCHANGED <<dial, okCh, cctx, gmon, g2, dDone, qc, dOps, aOps, aDone, acctx, gaw, gam>>
+  /\ g1 = "alive" /\ ((IF EarlyWatcherFollows = "cctx" THEN cctx ELSE uctx) \/ sctx = "cancelled") /\ g1' = "done" /\ EClose
+  /\ UNCHANGED <<dial, okCh, cctx, uctx, gmon, g2, dDone, qc, dOps, aOps, aDone, acctx, gaw, gam>>
 
 DialFail ==         \* tr.Dial / OpenStreamSync / first write fails: close(okChan), pc.Close()
+                    \* (variant "ctx": when cctx is done the error path returns at once and leaves the socket to the early goroutine)
   /\ dial = "dialling"
-  /\ dial' = "failed" /\ okCh' = TRUE /\ EClose
-  /\ UNCHANGED <<cctx, g1, gmon, g2, dDone, qc, dOps, aOps, aDone, acctx, gaw, gam>>
+  /\ dial' = "failed"
+  /\ IF EarlyWatcherFollows = "ctx" /\ cctx
+       THEN UNCHANGED <<okCh, ereg, ectx>>
+       ELSE okCh' = TRUE /\ EClose
+  /\ UNCHANGED <<cctx, uctx, g1, gmon, g2, dDone, qc, dOps, aOps, aDone, acctx, gaw, gam>>
 
 DialOk ==           \* close(okChan); the late watcher goroutine; the accepting side creates its Conn
   /\ dial = "dialling" /\ ereg
   /\ dial' = "ok" /\ okCh' = TRUE /\ g2' = "alive" /\ qc' = "open" /\ gaw' = "alive" /\ gam' = "alive"
-  /\ UNCHANGED <<ereg, ectx, cctx, g1, gmon, dDone, dOps, aOps, aDone, acctx>>
+  /\ UNCHANGED <<ereg, ectx, cctx, uctx, g1, gmon, dDone, dOps, aOps, aDone, acctx>>
 
 ConnClose_D ==      \* doneOnce: close(doneChan); qs.Close() - half close
   /\ dial = "ok" /\ dOps' = dOps \cup {"close"} /\ dDone' = TRUE
-  /\ UNCHANGED <<dial, ereg, ectx, okCh, cctx, g1, gmon, g2, qc, aOps, aDone, acctx, gaw, gam>>
+  /\ UNCHANGED <<dial, ereg, ectx, okCh, cctx, uctx, g1, gmon, g2, qc, aOps, aDone, acctx, gaw, gam>>
 CloseConnection_D == \* c.pc.Cancel() only RETURNS the cancel function; close(doneChan); qc.CloseWithError
   /\ dial = "ok" /\ dOps' = dOps \cup {"cc"} /\ dDone' = TRUE /\ qc' = "closed"
-  /\ UNCHANGED <<dial, ereg, ectx, okCh, cctx, g1, gmon, g2, aOps, aDone, acctx, gaw, gam>>
+  /\ UNCHANGED <<dial, ereg, ectx, okCh, cctx, uctx, g1, gmon, g2, aOps, aDone, acctx, gaw, gam>>
 ConnClose_A ==
   /\ dial = "ok" /\ aOps' = aOps \cup {"close"} /\ aDone' = TRUE
-  /\ UNCHANGED <<dial, ereg, ectx, okCh, cctx, g1, gmon, g2, dDone, qc, dOps, acctx, gaw, gam>>
+  /\ UNCHANGED <<dial, ereg, ectx, okCh, cctx, uctx, g1, gmon, g2, dDone, qc, dOps, acctx, gaw, gam>>
 CloseConnection_A ==
   /\ dial = "ok" /\ aOps' = aOps \cup {"cc"} /\ aDone' = TRUE /\ qc' = "closed"
-  /\ UNCHANGED <<dial, ereg, ectx, okCh, cctx, g1, gmon, g2, dDone, dOps, acctx, gaw, gam>>
+  /\ UNCHANGED <<dial, ereg, ectx, okCh, cctx, uctx, g1, gmon, g2, dDone, dOps, acctx, gaw, gam>>
 
 G2_Done ==          \* as found: case <-doneChan: return  (nobody is left to close the ephemeral socket)
   /\ WatcherQuitsOnDone /\ g2 = "alive" /\ dDone /\ g2' = "done"
-  /\ UNCHANGED <<dial, ereg, ectx, okCh, cctx, g1, gmon, dDone, qc, dOps, aOps, aDone, acctx, gaw, gam>>
+  /\ UNCHANGED <<dial, ereg, ectx, okCh, cctx, uctx, g1, gmon, dDone, qc, dOps, aOps, aDone, acctx, gaw, gam>>
 G2_QcDone ==        \* case <-qc.Context().Done() / <-s.context.Done(): qs.Close(); pc.Close()
   /\ g2 = "alive" /\ (qc = "closed" \/ sctx = "cancelled") /\ g2' = "done" /\ EClose
-  /\ UNCHANGED <<dial, okCh, cctx, g1, gmon, dDone, qc, dOps, aOps, aDone, acctx, gaw, gam>>
+  /\ UNCHANGED <<dial, okCh, cctx, uctx, g1, gmon, dDone, qc, dOps, aOps, aDone, acctx, gaw, gam>>
 GMon_End ==         \* monitorUnreachable and its two subscription goroutines end on doneChan or with the socket
   /\ gmon = "alive" /\ (dDone \/ ectx = "cancelled") /\ gmon' = "done"
-  /\ UNCHANGED <<dial, ereg, ectx, okCh, cctx, g1, g2, dDone, qc, dOps, aOps, aDone, acctx, gaw, gam>>
+  /\ UNCHANGED <<dial, ereg, ectx, okCh, cctx, uctx, g1, g2, dDone, qc, dOps, aOps, aDone, acctx, gaw, gam>>
 
 A_Unreach ==        \* the accepting side is told "service unknown" for the dialler's vanished socket
   /\ dial = "ok" /\ ~ereg /\ ~acctx /\ acctx' = TRUE
-  /\ UNCHANGED <<dial, ereg, ectx, okCh, cctx, g1, gmon, g2, dDone, qc, dOps, aOps, aDone, gaw, gam>>
+  /\ UNCHANGED <<dial, ereg, ectx, okCh, cctx, uctx, g1, gmon, g2, dDone, qc, dOps, aOps, aDone, gaw, gam>>
 GAW_Done ==         \* accept-side watcher: case <-doneChan: return
   /\ gaw = "alive" /\ aDone /\ gaw' = "done"
-  /\ UNCHANGED <<dial, ereg, ectx, okCh, cctx, g1, gmon, g2, dDone, qc, dOps, aOps, aDone, acctx, gam>>
+  /\ UNCHANGED <<dial, ereg, ectx, okCh, cctx, uctx, g1, gmon, g2, dDone, qc, dOps, aOps, aDone, acctx, gam>>
 GAW_Ctx ==          \* case <-cctx.Done() (or node shutdown): conn.Close()
   /\ gaw = "alive" /\ (acctx \/ sctx = "cancelled") /\ gaw' = "done" /\ aDone' = TRUE
-  /\ UNCHANGED <<dial, ereg, ectx, okCh, cctx, g1, gmon, g2, dDone, qc, dOps, aOps, acctx, gam>>
+  /\ UNCHANGED <<dial, ereg, ectx, okCh, cctx, uctx, g1, gmon, g2, dDone, qc, dOps, aOps, acctx, gam>>
 GAM_End ==
   /\ gam = "alive" /\ (aDone \/ sctx = "cancelled") /\ gam' = "done"
-  /\ UNCHANGED <<dial, ereg, ectx, okCh, cctx, g1, gmon, g2, dDone, qc, dOps, aOps, aDone, acctx, gaw>>
+  /\ UNCHANGED <<dial, ereg, ectx, okCh, cctx, uctx, g1, gmon, g2, dDone, qc, dOps, aOps, aDone, acctx, gaw>>
 Qc_Idle ==          \* nothing arrives from a peer whose socket is gone: QUIC idle timeout
   /\ qc = "open" /\ ~ereg /\ qc' = "closed"
-  /\ UNCHANGED <<dial, ereg, ectx, okCh, cctx, g1, gmon, g2, dDone, dOps, aOps, aDone, acctx, gaw, gam>>
+  /\ UNCHANGED <<dial, ereg, ectx, okCh, cctx, uctx, g1, gmon, g2, dDone, dOps, aOps, aDone, acctx, gaw, gam>>
 
 StreamInternal == G1_Ok \/ G1_Cancel \/ G2_Done \/ G2_QcDone \/ GMon_End \/ A_Unreach \/ GAW_Done \/ GAW_Ctx \/ GAM_End \/ Qc_Idle
-StreamEnv == DialStart \/ DialCtxCancel \/ DialFail \/ DialOk \/ ConnClose_D \/ CloseConnection_D \/ ConnClose_A \/ CloseConnection_A
+StreamEnv == DialStart \/ DialCtxCancel \/ DialNotice \/ DialFail \/ DialOk \/ ConnClose_D \/ CloseConnection_D \/ ConnClose_A \/ CloseConnection_A
 StreamShutdown == /\ sctx = "live" /\ sctx' = "cancelled"
                   /\ ectx' = IF ectx = "live" THEN "cancelled" ELSE ectx
                   /\ qc' = IF qc = "open" THEN "closed" ELSE qc
-                  /\ UNCHANGED <<dial, ereg, okCh, cctx, g1, gmon, g2, dDone, dOps, aOps, aDone, acctx, gaw, gam>>
+                  /\ UNCHANGED <<dial, ereg, okCh, cctx, uctx, g1, gmon, g2, dDone, dOps, aOps, aDone, acctx, gaw, gam>>
 StreamNext == \/ (StreamInternal \/ StreamEnv) /\ UNCHANGED <<sctx, socketVars, listenerVars, pingVars>>
               \/ StreamShutdown /\ UNCHANGED <<socketVars, listenerVars, pingVars>>
 
@@ -401,5 +412,6 @@ W_NoBlockedPair == ~(Cardinality({d \in Deliverers : dl[d] = "blocked"}) >= 2)
 W_NoDeliverAfterClose == ~(ncl >= 1 /\ rd = "got")
 W_NoStreamReleasedState == ~(Part = "stream" /\ BothEndsDone /\ Quiescent /\ ~ereg /\ "cc" \in (dOps \cup aOps))
 W_NoHalfCloseOnly == ~(Part = "stream" /\ BothEndsDone /\ Quiescent /\ ~("cc" \in (dOps \cup aOps)) /\ ereg)
+W_NoDialFailedByNotice == ~(Part = "stream" /\ dial = "failed" /\ cctx /\ ~uctx /\ Quiescent)
 W_NoPingReturned == ~(Part = "ping" /\ pmain = "returned" /\ Quiescent)
 =============================================================================
